@@ -41,6 +41,7 @@ def run(ctx):
     # copied to the output without being walked escapes the duplicate-digest bookkeeping and every placeholder / arity check beneath it
     # (more lenient than the specification). Rule shared with C03.V6 / C01.a.
     c03.v6(common.RelabelCtx(ctx, "C08.E6"), fx, U, "C08.E6")
+    e7(ctx, fx, U)
 
 
 class ProxyCtx:
@@ -236,6 +237,58 @@ def e4(ctx, fx, U):
             ctx.ok("C08.E4", fn, "sd_alg", "unpacking is dominated by `_sd_alg` absent or == \"sha-256\"", line=t.get("line"))
         else:
             ctx.finding("C08.E4", fn, "sd_alg", "claims are unpacked without `_sd_alg` having been checked against \"sha-256\"", line=t.get("line"))
+
+
+ERROR_DROPPING = ("flat_map", "flatten", "filter_map", "find_map", "map_while", "take_while", "skip_while", "filter", "any", "all", "position", "scan")
+
+
+def e7(ctx, fx, U):
+    """E7 (error discipline): an error raised anywhere below is the verifier's outcome. Every `Result` a crate-local call produces inside the
+    claim-unpacking functions is handed on as it is, or branched on with the failure edge leading only to Err exits; a closure that returns
+    such a `Result` is not handed to an adaptor that consumes it as an iterator / predicate (`flat_map`, `flatten`, `filter_map` ..: `Result`
+    iterates over its Ok value and is empty for Err, so the error vanishes and the element is dropped like a decoy)."""
+    import cfg as _cfg
+    ncall = 0
+    closures = [f for n, f in fx.fns.items() if f.kind == "closure" and any(n.startswith(u.name + "::{closure") for u in U.fns)]
+    for fn in list(U.fns) + closures:
+        fv = vals(fn)
+        for b, t in fn.calls():
+            if not t.get("resolved_local") or t.get("resolved") not in fx.fns:
+                continue
+            callee = fx.fns[t["resolved"]]
+            if callee.kind == "closure" or not (callee.raw.get("ret_ty") or "").startswith("std::result::Result<"):
+                continue
+            ncall += 1
+            node = fv.call_node(b)
+            line = t.get("line")
+            what = "error-propagated:%s" % t["resolved"].split("::")[-1]
+            good, bad = success_edges(fn, node)
+            if bad:
+                starts = [tg for (_, tg) in bad if fn.term(tg)["k"] != "unreachable"]
+                heads = set(h for (_, h) in _cfg.back_edges(fn))
+                r = _cfg.reachable(fn, starts)
+                oks = [e for e in _cfg.exit_sites(fn) if e["bb"] in r and e["kind"] not in ("Err", "residual")]
+                if oks or any(h in r for h in heads):
+                    ctx.finding("C08.E7", fn, what, "when %s fails, an Ok exit or the next iteration is reachable: the error is swallowed and the verifier returns claims where the "
+                                "specification requires rejection" % t["resolved"].split("::")[-1], line=line)
+                else:
+                    ctx.ok("C08.E7", fn, what, "the failure edge leads only to Err exits", line=line)
+            else:
+                rv = fv.return_value()
+                if may(rv, lambda x: x is node):
+                    ctx.ok("C08.E7", fn, what, "the Result is handed on as this function's result", line=line)
+                else:
+                    ctx.finding("C08.E7", fn, what, "the Result of %s is neither branched on nor returned: its error is ignored" % t["resolved"].split("::")[-1], line=line)
+    ctx.floor("C08.E7", "Result-returning crate-local calls in the unpacking functions", ncall, 3)
+    for cf in closures:
+        if not (cf.raw.get("ret_ty") or "").startswith("std::result::Result<"):
+            continue
+        nm, pf, call = c07._closure_consumer(fx, cf)
+        if nm in ERROR_DROPPING:
+            ctx.finding("C08.E7", cf, "error-dropped-by:%s" % nm, "a closure returning Result is handed to `%s`, which consumes the Result as an iterator / discards the Err: errors raised beneath "
+                        "(duplicate digest, wrong arity, malformed placeholder ..) vanish and the element is dropped as if it were undisclosed" % nm, line=cf.line)
+        elif nm is not None:
+            ctx.ok("C08.E7", cf, "closure-result:%s" % nm, "the closure's Result is consumed by `%s` (collected / folded as a Result)" % nm, line=cf.line)
 
 
 def e5(ctx, fx, U):
